@@ -17,7 +17,7 @@ T = {
          "Markers/baits are recognised by unique addresses; reply stream parsed strictly; exploration.", "4/C02"),
  "C03": ("model-based PBT: generated command histories vs an explicit command-state monitor and callback-trace invariants",
          "Histories of up to 25 (quick) / 40 (thorough) abstract commands with scripted backend decisions, driven lock-step over memnet; a reference monitor (transition table in ref/monitor.go) predicts for each command refusal-without-callback or the exact callback, and trace invariants check Reset/Logout placement, recipient limits and the greeting data seen in NewSession.",
-         "Monitor follows the observed reply where the specification leaves a choice (second MAIL); exploration.", "4/C03, Appendix A"),
+         "Monitor follows the observed reply where the specification leaves a choice (second MAIL, malformed BDAT during a transfer); the delivery goroutine's start is gated in half of the cases; exploration.", "4/C03, Appendix A"),
  "C04": ("metamorphic PBT (pipelined/segmented transcript == lock-step transcript) + strict RFC 5321/2034 reply grammar + gated chunked-transfer schedules with message-id verdict attribution",
          "The C03 history generator crossed with sending disciplines; every server octet stream must parse under a strict reply grammar with enhanced codes of the right class, contain exactly the predicted number of replies, and be identical whether commands are sent one by one or pipelined in any segmentation; schedules of gated BDAT deliveries check that each message's final reply reports that message's own verdict.",
          "Attribution of replies to commands comes from the lock-step run (server idle detection), not from parsing; exploration.", "4/C04"),
@@ -26,13 +26,13 @@ T = {
          "Framing reference is arithmetic on the declared sizes; exploration.", "4/C05"),
  "C06": ("rapid PBT + small-range enumeration, differential against an unlimited server",
          "Limits N in a small range (and around the 4096 buffer in thorough), message sizes N-2..N+2 and far above, by DATA and by every chunking into <=4 BDAT chunks, declared SIZE values around N and around 2^32/2^63; oracle: octets read <= N, <=N behaves exactly like a server without limit, >N yields reader error + 552 + discarded transaction + marker executed once, SIZE>N refused 552 without callback.",
-         "Honest backend (propagates reader errors); exploration.", "4/C06"),
+         "Honest backend (propagates reader errors); content is drawn as wire lines (not only what a conforming dot-stuffer emits) with the limit on line boundaries; optionally after an earlier chunked transaction on the same connection; exploration.", "4/C06"),
  "C07": ("fault injection at every cut offset of generated conversations (exhaustive per conversation) + abandoning actions",
          "For each rapid-drawn DATA/BDAT conversation (SMTP and LMTP) the client stream is cut at every byte offset, by clean EOF and by reset, and every abandoning action is tried between chunks; oracle: the backend reader reports EOF only if the generator knows the message was complete at that offset and the octets are the full message, otherwise a non-EOF error and no 2xx final reply.",
          "Cut offsets are exhaustive per conversation, conversations are sampled; idle timeout triggered with a 30 ms ReadTimeout (used as trigger, never as oracle).", "4/C07"),
  "C08": ("fault injection at every cut offset + generated buffered suffixes behind every server-initiated close; begin/end callback-trace and goroutine-dump oracle",
          "The C07 corpus cut at every offset plus every server-initiated close reason (QUIT, 4th error, over-long line, idle timeout, backend panic) followed by a generated suffix of commands in the same segment; oracle over the totally ordered begin/end trace: exactly one Logout per session after the join, no callback begins after Logout or after the closing event, no new session, no replies after the closing reply, no goroutine with a server-side go-smtp frame left.",
-         "Join point is Server.Shutdown; goroutine exit polled with bounded retry; exploration.", "4/C08"),
+         "Join point is Server.Shutdown; goroutine exit polled with bounded retry; the moment the BDAT delivery goroutine starts is a generated value (verif hook, start gate); exploration.", "4/C08"),
  "C09": ("rapid PBT over TLS state x config x SASL exchange scripts (server) and scripted mechanisms over a real client-server pair (client)",
          "Server half: generated AUTH exchanges (initial response, '=', bad base64, '*', binary octets, 1-3 challenges) in every TLS/AllowInsecureAuth/backend configuration and surrounding history, against an access model; the recording mechanism must see exactly the base64-decoded octets. Client half: Client.Auth against the real server with scripted client/server mechanisms; octets cross unaltered, errors cancel with '*', result equals the server's final reply.",
          "TLS over memnet with a throw-away certificate; exploration.", "4/C09"),
@@ -68,7 +68,7 @@ T = {
          "Bounded buffering measured as octets consumed from the network before the server gives up; exploration.", "4/C19"),
  "C20": ("harness-ordered event schedules executed under the Go race detector + exhaustive Accept fault sequences",
          "Generated orders of harness-controlled events (delivery completes, RSET/next chunk/QUIT, disconnect, Close, Shutdown, context expiry) for chunked and LMTP transfers on 1-3 connections, each executed under -race; Accept fault sequences up to length 5 enumerated completely; oracle: no race report, no state-based deadlock, no leftover goroutine, Close/Shutdown/Serve return values.",
-         "The harness owns its own event order, not the Go scheduler inside the library; races are only seen on executed schedules; exploration.", "4/C20, 6"),
+         "The harness owns its own event order (including, through the verif hook, when the BDAT delivery goroutine starts), not the Go scheduler inside the library; races are only seen on executed schedules; exploration.", "4/C20, 6"),
 }
 
 NA = {}
